@@ -548,6 +548,73 @@ ByteFail(S, e) ==
             [] OTHER -> {})
 
 (***************************************************************************)
+(* Zero-sized elements at extreme capacities (C19).  Elements have no      *)
+(* identity; the trace carries lengths, flags, result kinds and the        *)
+(* created / destroyed counters (e.ret.ids2 = <<created, destroyed, held   *)
+(* by the caller>>).  The same sequence semantics, stated on lengths.      *)
+(***************************************************************************)
+Dummy(k) == [x \in 1..k |-> x]
+ZExpLen(S, e) ==
+    LET n == Len(BufSeq(S, e.h))  cap == CapOf(S, e) IN
+    CASE e.op \in PushOps -> IF n < cap THEN n + 1 ELSE n
+      [] e.op \in {"pop_back", "pop_front"} -> Max(n - 1, 0)
+      [] e.op \in {"remove", "swap_remove_back", "swap_remove_front"} -> IF e.i < n THEN n - 1 ELSE n
+      [] e.op \in {"truncate_back", "truncate_front"} -> Min(n, e.i)
+      [] e.op = "clear" -> 0
+      [] e.op \in {"extend", "extend_from_slice"} -> Min(n + e.i, cap)
+      [] OTHER -> n
+ZExpRet(S, e) ==       \* the kind of the result
+    LET n == Len(BufSeq(S, e.h))  cap == CapOf(S, e) IN
+    CASE e.op \in {"push_back", "push_front"} -> IF cap = 0 \/ n = cap THEN "some" ELSE "none"
+      [] e.op \in {"try_push_back", "try_push_front"} -> IF n < cap THEN "ok" ELSE "err"
+      [] e.op \in {"pop_back", "pop_front", "front", "back", "front_mut", "back_mut"} -> IF n = 0 THEN "none" ELSE "some"
+      [] e.op \in {"remove", "swap_remove_back", "swap_remove_front", "get", "get_mut", "nth_front", "nth_front_mut",
+                   "nth_back", "nth_back_mut", "index", "index_mut"} -> IF e.i < n THEN "some" ELSE "none"
+      [] e.op \in {"as_slices", "as_mut_slices"} -> "slices"
+      [] e.op \in {"make_contiguous", "drain", "range", "iter", "v_len"} -> "n"
+      [] e.op \in {"v_next", "v_next_back"} -> IF HasView(S, e.v) /\ S.views[e.v].win # <<>> THEN "some" ELSE "none"
+      [] OTHER -> "unit"
+ZFail(S, e) ==
+    LET n == Len(BufSeq(S, e.h))  cap == CapOf(S, e)
+        drainAlive == \E v \in DOMAIN S.views : S.views[v].kind = "drain" /\ e.op # "v_drop" IN
+    IF e.op = "new" THEN Chk(e.post.len = 0 /\ e.post.empty, "C19", "new_not_empty")
+    ELSE IF e.op = "caller_drop" THEN {}
+    ELSE
+       Chk(e.unw = DocPanic(S, e), "C19", IF e.unw THEN "unexpected_panic" ELSE "missing_panic")
+  \cup Chk(~e.post.obs \/ e.post.len >= 0, "C19", "observation_panicked")
+  \cup (IF e.unw \/ ~e.post.obs THEN {} ELSE
+           Chk(e.post.len = (IF e.op = "v_drop" /\ HasView(S, e.v) /\ S.views[e.v].kind = "drain"
+                             THEN Len(S.views[e.v].pre) - (S.views[e.v].b - S.views[e.v].a) ELSE ZExpLen(S, e)), "C19", "length")
+      \cup Chk(e.post.empty = (e.post.len = 0) /\ e.post.full = (e.post.len = cap) /\ e.post.cap = cap, "C19", "len_flags")
+      \cup Chk(e.post.seq = <<e.post.len>> /\ e.post.split <= e.post.len, "C19", "slices_do_not_add_up"))
+  \cup (IF e.unw THEN {} ELSE
+           Chk(e.ret.k = ZExpRet(S, e), "C19", "return_value")
+      \cup Chk(e.ret.k # "slices" \/ (e.ret.n = n /\ e.ret.slots[1] + e.ret.slots[2] = n), "C19", "slices_do_not_add_up")
+      \cup Chk(e.op # "make_contiguous" \/ e.ret.n = n, "C19", "make_contiguous_len")
+      \cup Chk(e.op \notin {"drain", "range"} \/ e.ret.n = BEnd(e.be, n) - BStart(e.bs), "C19", "initial_len")
+      \cup Chk(e.op # "iter" \/ e.ret.n = n, "C19", "initial_len")
+      \cup Chk(e.op # "v_len" \/ ~HasView(S, e.v) \/ e.ret.n = Len(S.views[e.v].win), "C19", "len"))
+  \cup \* the number of destructor runs follows the sequence semantics: everything created is in the buffer,
+       \* with the caller, or destroyed
+       Chk(drainAlive \/ ~e.post.obs \/ e.post.len < 0 \/ e.ret.ids2[1] - e.ret.ids2[2] = e.post.len + e.ret.ids2[3], "C19", "destructor_runs")
+ZNext(S, e) ==
+    LET n == Len(BufSeq(S, e.h))
+        a == IF e.op = "iter" THEN 0 ELSE BStart(e.bs)
+        b == IF e.op = "iter" THEN n ELSE BEnd(e.be, n)
+        b1 == IF e.op = "drop_buf" THEN Del(S.bufs, e.h)
+              ELSE IF e.post.obs /\ e.post.len >= 0
+                   THEN Upd(S.bufs, e.h, [cap |-> CapOf(S, e), seq |-> Dummy(e.post.len), slot |-> <<>>, split |-> e.post.split, lock |-> -1])
+                   ELSE S.bufs
+        v1 == IF e.unw THEN (IF e.op = "v_drop" THEN Del(S.views, e.v) ELSE S.views)
+              ELSE IF e.op \in {"drain", "range", "iter"}
+              THEN Upd(S.views, e.v, [kind |-> IF e.op = "drain" THEN "drain" ELSE "iter", h |-> e.h, win |-> Dummy(b - a),
+                                      pre |-> BufSeq(S, e.h), a |-> a, b |-> b])
+              ELSE IF e.op \in {"v_next", "v_next_back"} /\ HasView(S, e.v) THEN [S.views EXCEPT ![e.v].win = DropN(@, 1)]
+              ELSE IF e.op = "v_drop" THEN Del(S.views, e.v)
+              ELSE S.views
+    IN [S EXCEPT !.bufs = b1, !.views = v1]
+
+(***************************************************************************)
 (* End of a scenario: the harness has released everything; every element   *)
 (* ever created has been destroyed exactly once, except permitted leaks.   *)
 (***************************************************************************)
@@ -565,8 +632,10 @@ EndFail(S) ==
 (***************************************************************************)
 Fail(S, e) ==
     IF e.e = "begin" THEN {}
+    ELSE IF e.e = "end" /\ e.ty = "z" THEN Chk(e.ret.ids2[1] = e.ret.ids2[2], "C19", "destructor_runs_at_end")
     ELSE IF e.e = "end" THEN EndFail(S)
     ELSE IF e.ty = "b" THEN GenericFail(S, e) \cup ByteFail(S, e)
+    ELSE IF e.ty = "z" THEN Chk(e.allocs <= 0, "C17", "allocation") \cup ZFail(S, e)
     ELSE GenericFail(S, e) \cup
          (IF e.inj THEN FaultFail(S, e)
           ELSE IF e.unw THEN PanicFail(S, e)
@@ -589,6 +658,7 @@ BufRec(cap, p, lock) == [cap |-> cap, seq |-> p.seq, slot |-> p.slots, split |->
 
 Next(S, e) ==
     IF e.e = "begin" \/ e.e = "end" THEN InitS
+    ELSE IF e.ty = "z" THEN ZNext(S, e)
     ELSE
     LET new == NewIds(S, e)
         nd1 == [id \in DOMAIN S.nd \cup new \cup DropIds(e) |-> Nd(S, id) + DropCnt(e, id)]
